@@ -374,7 +374,9 @@ def check_C10(tier, seed):
         cfgs = [(be, sh, 40000) for be in ('asm', 'c64', 'c32') for sh in B.ALL_SHARES] + [('dxor', (4, 2, 4), 40000), ('dxor', (3, 3, 3), 40000), ('gen', (3, 1, 3), 40000), ('gen', (4, 4, 4), 40000)]
     for be, sh, n in cfgs:
         exe = world_exe('masked', be, sh, 'rel')
-        o.add(D.run_batch(exe, n, tier, seed, label='masked@%s-%d%d%d' % (be, *sh), crash_prop='C12'))
+        # a masked operation that dies (e.g. on the PROT_NONE page right behind an exactly-sized input) computes no
+        # value at all where its unmasked counterpart does: counted as a C10 verdict here (and as C12 in check C12)
+        o.add(D.run_batch(exe, n, tier, seed, label='masked@%s-%d%d%d' % (be, *sh), crash_prop='C10'))
     # masked keys with the library's own random source (world channel: keys are re-randomised before use and must
     # still extract to the key; only its C10 verdicts count here)
     for be, sh in [('asm', (4, 2, 4)), ('c32', (3, 3, 3)), ('c64', (2, 1, 2))]:
